@@ -139,6 +139,22 @@ pub fn dec_value<'a, I: Iterator<Item = &'a str>>(toks: &mut I) -> Value {
 pub fn parse_opts(s: &str) -> lexpr::parse::Options {
     use lexpr::parse::*;
     let d: Vec<u8> = s.bytes().map(|b| b - b'0').collect();
+    // two equivalent ways of building the same option set: the singular keyword calls first, or every other
+    // option first and the keyword spellings last through the plural setter (chosen by the option set itself)
+    if d.iter().map(|x| *x as u32).sum::<u32>() % 2 == 1 {
+        let mut o = if d[9] == 1 && d[8] == 0 { Options::elisp() } else { Options::new() };
+        o = o.with_racket_hash_percent_symbols(d[8] == 1).with_leading_digit_symbols(d[9] == 1);
+        o = o.with_nil_symbol(match d[3] { 0 => NilSymbol::EmptyList, 1 => NilSymbol::Default, _ => NilSymbol::Special });
+        o = o.with_t_symbol(if d[4] == 0 { TSymbol::True } else { TSymbol::Default });
+        o = o.with_brackets(if d[5] == 0 { Brackets::List } else { Brackets::Vector });
+        o = o.with_string_syntax(if d[6] == 0 { StringSyntax::R6RS } else { StringSyntax::Elisp });
+        o = o.with_char_syntax(if d[7] == 0 { CharSyntax::R6RS } else { CharSyntax::Elisp });
+        let mut kws = Vec::new();
+        if d[0] == 1 { kws.push(KeywordSyntax::ColonPrefix); }
+        if d[1] == 1 { kws.push(KeywordSyntax::ColonPostfix); }
+        if d[2] == 1 { kws.push(KeywordSyntax::Octothorpe); }
+        return o.with_keyword_syntaxes(kws);
+    }
     let mut o = Options::new();
     if d[0] == 1 {
         o = o.with_keyword_syntax(KeywordSyntax::ColonPrefix);
